@@ -38,14 +38,14 @@ def main():
             "level_note": getattr(mod, "LEVEL_NOTE", "Trusted: Lean kernel (axioms propext, Classical.choice, Quot.sound only), the Spec "
                                   "definitions as a reading of the prose property, harness/extract.py + describe.py + generators; the theorems are "
                                   "about the model, the tie to the code is checked on generated inputs, not proved."),
-            "technique": getattr(mod, "TECHNIQUE", "Lean 4 proof over an executable model + generated-table agreement (decide) + model/implementation differential"),
+            "technique": getattr(mod, "TECHNIQUE", "Lean 4 proof over an executable model + generated-table agreement (decide) + model/implementation differential" + (" (renderings, and call by call the builder methods: harness/trace.py)" if getattr(mod, "TRACE_BUILDER", False) else "")),
         })
     manifest = {
         "version": 1,
         "setup_cmd": "./setup.sh",
         "hooks": {
             "guard": "PYPIKA_VERIF",
-            "enable": "no hooks are needed: every observation goes through the public API of /repo's working tree (PYTHONPATH=/repo)",
+            "enable": "no hooks are needed: every observation goes through the public API of /repo's working tree (PYTHONPATH=/repo); the builder-call recorder (harness/trace.py) wraps the library's methods inside the harness process at run time and changes nothing in /repo",
             "baseline_off_cmd": "cd /repo && /venv/bin/python -m pytest -ra -q -p no:cacheprovider --timeout=900 --continue-on-collection-errors",
             "source_commits": [],
             "add_only": True,
@@ -55,7 +55,7 @@ def main():
             "path": "lean/ (lake project Pypika, import-free model + Props/*.lean), harness/ (Python), check",
             "serves_properties": [c["property_id"] for c in checks],
             "kind_free_text": "Lean 4.33 proofs about a hand-written executable model; tables regenerated from /repo and checked by decide; "
-                              "JSON-lines differential between the compiled model driver and the real library; property oracles on the implementation",
+                              "JSON-lines differential between the compiled model driver and the real library (statement renderings; every real builder call a check makes is also run through the Lean model of the method); property oracles on the implementation",
         }],
         "checks": checks,
         "not_applicable": na,
